@@ -560,7 +560,7 @@ struct Config
         // operations on vectors or elements that do not exist (e.g. because their construction threw) are skipped
         {
             bool missing = false;
-            const bool creates = op == "new";
+            const bool creates = op == "new" || op == "newdef";
             for (std::size_t a = 1; a < t.size(); ++a)
             {
                 if (t[a].size() == 2 && t[a][0] == 'v' && !creates)
@@ -591,6 +591,15 @@ struct Config
             vec[k].oracle_valid = true;
             auto es = ET::calculate_element_size(typename LT::FixedSizesArray{fixed_array(fixed)});
             out << "esz=" << es.size << "/" << es.stride << "\n";
+            dump(k);
+        }
+        else if (op == "newdef")
+        {  // newdef vK : default-constructed vector
+            int k = vidx(t[1]);
+            vec[k].v = std::make_unique<Vector>();
+            vec[k].oracle.clear();
+            vec[k].fixed.assign(LT::CONTIGUOUS_FIXED_SIZE_COUNT, 0);
+            vec[k].oracle_valid = true;
             dump(k);
         }
         else if (op == "emplace")
